@@ -300,7 +300,7 @@ def pairsetup_family(run, replay=None):
 # Notify family: C10
 # =====================================================================================================
 
-NT_GUARDS = ["event_carries_change_value", "changes_notified_in_order", "skip_originator", "only_subscribed", "unsubscribe_clears", "session_removed_on_close", "no_event_on_same_value",
+NT_GUARDS = ["held_back_events_all_delivered", "event_carries_change_value", "changes_notified_in_order", "skip_originator", "only_subscribed", "unsubscribe_clears", "session_removed_on_close", "no_event_on_same_value",
              "subscribe_requires_ev_perm", "notified_once", "write_tolerates_vanished_session"]
 
 
@@ -1202,7 +1202,8 @@ def honest_family(run, replay=None):
     def fp(rule, b, line):
         if rule.startswith('FirstRequest'):
             return rule
-        return '%s/%s' % (rule, line.get('name') if line.get('name') != 'fail' else line.get('why', '')[:40])
+        import re as _re
+        return '%s/%s' % (rule, line.get('name') if line.get('name') != 'fail' else _re.sub(r'[0-9]+', '#', line.get('why', ''))[:40])
     rules = {r: 'C04' for r in ('Structure', 'ItemsOnce', 'Crypto', 'WrongCode', 'Stored', 'V4Plain', 'SwitchAtomic', 'Talk', 'Setup', 'FirstRequest:immediate', 'FirstRequest:pipelined')}
     return generic_family(run, replay, hcv='honest', trace_mod='HonestRunTrace', gen=gen, rules=rules, level='model_checking',
                           assumptions=['the reference controller in harness/ref is written from the HAP specification and shares no code with hc (SRP-6a over math/big, HKDF over crypto/hmac, x/crypto AEAD, own TLV8 and framing); RFC 8439 / RFC 5869 primitives come from the Go standard library and x/crypto',
